@@ -85,6 +85,9 @@ fn trait_ops(op: &str, a: &[&str]) -> Option<String> {
         "tr.Float.signum" => wr_tf(Float::signum(t1(0)?)),
         "tr.Float.recip" => wr_tf(Float::recip(t1(0)?)),
         "tr.Float.copysign" => wr_tf(Float::copysign(t1(0)?, t1(2)?)),
+        "tr.FloatConst.TAU" => wr_tf(<TwoFloat as num_traits::FloatConst>::TAU()),
+        "tr.FloatConst.LOG10_2" => wr_tf(<TwoFloat as num_traits::FloatConst>::LOG10_2()),
+        "tr.FloatConst.LOG2_10" => wr_tf(<TwoFloat as num_traits::FloatConst>::LOG2_10()),
         _ => return None,
     })
 }
